@@ -100,6 +100,11 @@ pub fn case_from_tape(data: &[u8]) -> Option<(Case, Vec<&'static str>)> {
             }
         }
     }
+    // grammar-aware edits (Authorization header / query / header list / path structure)
+    for _ in 0..r.usize_below(3) {
+        let e = *r.pick(&crate::mutwire::EDITS);
+        crate::mutwire::apply(e, &mut case.wire, &mut r);
+    }
     Some((case, applied))
 }
 
